@@ -238,6 +238,18 @@ func runOp2(name string, a []*Sx) *Sx {
 		if len(a) == 1 && a[0].K == 'b' {
 			return inbufObs(a[0].B)
 		}
+	case "dec2":
+		if len(a) == 3 && a[0].K == 'y' && a[1].K == 'b' && a[2].K == 'b' {
+			return dec2Obs(a[0].Y, a[1].B, a[2].B)
+		}
+	case "scribble":
+		if len(a) == 2 && a[0].K == 'y' && a[1].K == 'b' {
+			return scribbleObs(a[0].Y, a[1].B)
+		}
+	case "dhist":
+		if len(a) == 2 && a[0].K == 'b' && a[1].K == 'l' {
+			return dhistObs(a[0].B, a[1].L)
+		}
 	}
 	return unsupported
 }
